@@ -361,7 +361,7 @@ func strayWakes(p *packages.Package) []string {
 				}
 				if !inside {
 					pos := p.Fset.Position(n.Pos())
-					res = append(res, fmt.Sprintf("%s:%s", pos.Filename[strings.LastIndex(pos.Filename, "/")+1:], exprName(n.(*ast.CallExpr).Fun)))
+					res = append(res, fmt.Sprintf("(%s, %s)", leanStr(pos.Filename[strings.LastIndex(pos.Filename, "/")+1:]), leanStr(exprName(n.(*ast.CallExpr).Fun))))
 				}
 			}
 			return true
@@ -531,7 +531,7 @@ func main() {
 	}
 	fmt.Fprintf(&out, "\n/-- every tx.OnCommit hook: (where, shape); \"guarded\" = wakes only after the inner commit returned nil -/\ndef commitHooks : List (String × String) := [\n  %s]\n", strings.Join(hs, ",\n  "))
 	stray := append(strayWakes(act), strayWakes(svc)...)
-	fmt.Fprintf(&out, "/-- Wake* call sites outside commit hooks (outside notify.go) -/\ndef strayWakes : List String := %s\n", q(stray))
+	fmt.Fprintf(&out, "/-- Wake* call sites outside commit hooks (outside notify.go): (file, callee) -/\ndef strayWakes : List (String × String) := [%s]\n", strings.Join(stray, ", "))
 
 	flt := byName["faults"]
 	fmt.Fprintf(&out, "\n/-- steps of faults.Set.Check found in the source, in order -/\ndef faultsCheckShape : List String := %s\n", q(faultsCheckShape(flt)))
